@@ -47,13 +47,14 @@ def kitchen_sink():
     return "kitchen-sink", [dep, res, f], [res, f], ["all-scalars", "all-map-keys", "nesting-depth=4", "alias-import", "proto-alias"]
 
 
-def pb2_clash(silent):
+def pb2_clash(silent, other="qux.baz"):
     d1 = File("foo/bar/thing.proto", "foo.bar"); A = d1.message("A"); A.field("x", 1, "int32")
-    d2 = File("fab/baz/thing.proto", "fab.baz")
+    d2 = File(f"{other.replace('.', '/')}/thing.proto", other)
     B = d2.message("A" if silent else "B"); B.field("x" if silent else "y", 1, "string")
-    f = File(f"{D}/main.proto", P, deps=["foo/bar/thing.proto", "fab/baz/thing.proto"])
+    f = File(f"{D}/main.proto", P, deps=["foo/bar/thing.proto", d2.proto.name])
     m = f.message("Holder"); m.field("a", 1, A.fqn).field("b", 2, B.fqn)
-    return ("pb2-same-basename-wrong-type" if silent else "pb2-same-basename"), [d1, d2, f], [f], ["defect:import.pb2_same_basename"]
+    name = "pb2-same-basename" + ("-wrong-type" if silent else "") + ("-equal-initials" if other == "fab.baz" else "")
+    return name, [d1, d2, f], [f], ["defect:import.pb2_same_basename" if other != "fab.baz" else "defect:import.alias_equal_initials"]
 
 
 def rel_misfire(silent):
@@ -63,7 +64,7 @@ def rel_misfire(silent):
     if silent:
         own = xfoo.nested("Bar"); own.field("w", 1, "string")
     xfoo.field("bar", 1, bar.fqn)
-    return ("rel-misfire-wrong-type" if silent else "rel-misfire"), [f], [f], ["defect:rel.nested_named_like_toplevel"]
+    return ("rel-misfire-wrong-type" if silent else "rel-misfire"), [f], [f], ["regression:rel.nested_named_like_toplevel (fixed 2f90e4e)"]
 
 
 def enum_negative():
@@ -76,7 +77,8 @@ def enum_negative():
 def main():
     d = os.path.join(env.VERIF, "corpus", "C02")
     os.makedirs(d, exist_ok=True)
-    for name, files, togen, feats in [kitchen_sink(), pb2_clash(False), pb2_clash(True), rel_misfire(False), rel_misfire(True),
+    for name, files, togen, feats in [kitchen_sink(), pb2_clash(False), pb2_clash(True), pb2_clash(False, "fab.baz"),
+                                      rel_misfire(False), rel_misfire(True),
                                       enum_negative()]:
         req = apigen.request(files, to_generate=[f.proto.name for f in togen], parameter="transport=grpc")
         with open(os.path.join(d, name + ".json"), "w") as fh:
